@@ -6,6 +6,7 @@ import (
 	"github.com/orda-io/orda/client/pkg/iface"
 	"github.com/orda-io/orda/client/pkg/model"
 	"github.com/orda-io/orda/client/pkg/operations"
+	"github.com/orda-io/orda/client/pkg/verifgate"
 	"sync"
 )
 
@@ -95,8 +96,11 @@ func (its *TransactionDatatype) setTransactionContextAndLock(tag string) *Transa
 	if tag != NotUserTransactionTag {
 		its.L().Infof("Begin the transaction: '%s'", tag)
 	}
+	verifgate.At("tx.lock", its.Key)
 	its.mutex.Lock()
+	verifgate.At("tx.locked", its.Key)
 	its.isLocked = true
+	verifgate.At("tx.flagged", its.Key)
 	return &TransactionContext{
 		tag:      tag,
 		opBuffer: nil,
@@ -112,6 +116,7 @@ func (its *TransactionDatatype) BeginTransaction(
 	txCtx *TransactionContext,
 	newTxnOp bool,
 ) *TransactionContext {
+	verifgate.At("tx.check", its.Key)
 	if its.isLocked && its.txCtx == txCtx {
 		return nil // called after DoTransaction() succeeds.
 	}
@@ -151,6 +156,7 @@ func (its *TransactionDatatype) SetTransactionFail() {
 
 // EndTransaction is called when a transaction ends
 func (its *TransactionDatatype) EndTransaction(txCtx *TransactionContext, withOp, isLocal bool) errors.OrdaError {
+	verifgate.At("tx.end", its.Key)
 	if txCtx == its.txCtx {
 		defer its.unlock()
 		if its.success {
@@ -180,6 +186,7 @@ func (its *TransactionDatatype) unlock() {
 		its.txCtx = nil
 		its.success = true
 		its.mutex.Unlock()
+		verifgate.At("tx.unlocked", its.Key)
 		its.isLocked = false
 	}
 }
